@@ -1218,7 +1218,16 @@ def pred_summary(facts, f, spec=None):
                     continue
                 atoms = list(path_atoms(F, bi, _expand=False))
                 if t != ('const', 1):
-                    atoms += flatten_conj([one_atom(term_atoms(t))])
+                    extra = None
+                    if has_unknown(t):
+                        # `!(a || b || c)` / a boolean built through control flow: thread it
+                        rv = s['rv']
+                        if rv['k'] == 'un' and rv['op'] == 'Not':
+                            extra = value_false_atoms(F, rv['a'])
+                        elif rv['k'] == 'use':
+                            va = value_true_atoms(F, rv['a'])
+                            extra = va if va else None
+                    atoms += extra if extra is not None else flatten_conj([one_atom(term_atoms(t))])
                 contrib.append(atoms)
         t = b['t']
         if t['k'] == 'call' and t['dest']['l'] == 0 and not t['dest']['proj']:
@@ -1525,6 +1534,39 @@ def _thread_bool(F, s, t, bb, depth):
             at = one_atom(term_atoms(tm))
             out.extend(flatten_conj([at if val == 1 else neg_atom(at)]))
     return out if out else None
+
+
+def value_false_atoms(F, operand):
+    """Atoms implied by a boolean operand being FALSE (`!(a || b || c)`): threaded through the only definition compatible
+    with false; None when that is not possible."""
+    if 'p' in operand and not operand['p']['proj']:
+        l = operand['p']['l']
+        defs = [x for x in F.defs.get(l, []) if x[0] in F.reach]
+        for _ in range(3):
+            if len(defs) == 1 and defs[0][1] == 'assign' and defs[0][2]['k'] == 'use' and 'p' in defs[0][2]['a'] and not defs[0][2]['a']['p']['proj']:
+                defs = [x for x in F.defs.get(defs[0][2]['a']['p']['l'], []) if x[0] in F.reach]
+            else:
+                break
+        if len(defs) >= 2:
+            compat = []
+            for dd in defs:
+                if dd[1] == 'assign' and dd[2]['k'] == 'use' and 'c' in dd[2]['a'] and dd[2]['a'].get('val') is not None:
+                    if int(dd[2]['a']['val']) == 0:
+                        compat.append((dd, True))
+                else:
+                    compat.append((dd, False))
+            if len(compat) == 1:
+                dd, is_const = compat[0]
+                out = list(path_atoms(F, dd[0], _expand=False))
+                if not is_const:
+                    tm = norm(F.rvalue_term(dd[2])) if dd[1] == 'assign' else norm(F.call_term(dd[2]))
+                    out.extend(flatten_conj([neg_atom(one_atom(term_atoms(tm)))]))
+                return out
+            return None
+    t = norm(F.operand_term(operand))
+    if has_unknown(t):
+        return None
+    return flatten_conj([neg_atom(one_atom(term_atoms(t)))])
 
 
 def value_true_atoms(F, operand):
